@@ -247,7 +247,10 @@ def impl_apply(s, op, h=None):
     elif kind == "set_ref":   # multi tag positions/extents, feature data
         obj = s.resolve(path, h)
         blk = s.resolve(path[:2], h)
-        tgt = None if op[3] is None else blk.data_arrays[op[3]]
+        if isinstance(op[3], list):        # array of another block, given by its path
+            tgt = s.resolve(op[3], h)
+        else:
+            tgt = None if op[3] is None else blk.data_arrays[op[3]]
         setattr(obj, op[2], tgt)
     elif kind == "link":
         obj = s.resolve(path, h)
@@ -363,6 +366,8 @@ def model_apply(m, op):
                 obj["extents"] = None
             else:
                 raise Refused("TypeError")
+        elif isinstance(op[3], list):
+            obj[op[2]] = mkref(m.resolve(op[3]))
         else:
             obj[op[2]] = mkref(pick(blk["data_arrays"], op[3]))
     elif kind == "link":
@@ -684,6 +689,13 @@ def _enabled(m, cfg):
                     for an in cands:
                         ops.append(["set_ref", path, "positions", an])
                         ops.append(["set_ref", path, "extents", an])
+                    if cfg.get("xblock"):
+                        # positions / extents are not restricted to the tag's block
+                        for bp, bn in ents:
+                            if bn.get("$k") == "Block" and bp != blkpath:
+                                for a in bn["data_arrays"][:cfg.get("narr", 3)]:
+                                    ops.append(["set_ref", path, "positions", bp + ["data_arrays", a["name"]]])
+                                    ops.append(["set_ref", path, "extents", bp + ["data_arrays", a["name"]]])
                     if n["extents"] is not None:
                         ops.append(["set_ref", path, "extents", None])
             if want("feature"):
